@@ -22,7 +22,7 @@ def run(chk):
     chk.assume_note('behavioural equivalence for every continuation follows from field equality: every later operation is '
                     'a function of these fields only')
     for ntx in (0, 2):
-        one(chk, it, ntx)
+        chk.guard(one, chk, it, ntx)
 
 
 def one(chk, it, ntx):
